@@ -114,12 +114,14 @@ def s_bech32_encode(ctx, args, kw):
 
 
 def _new_child(ctx, selfref, o, key, cc, index):
-    ch = ctx.new_list([])
-    child = ctx.new_obj(o.cls, parent=selfref, key=key, chain_code=cc, depth=o.fields["depth"] + 1, index=index,
-                        parsed_parent_fingerprint=None, parsed_version=None, testnet=o.fields["testnet"], children=ch)
-    lst = ctx.deref(o.fields["children"])
+    # the child is built by the class's own constructor (as the contract of ckd says: a new node of the
+    # receiver's class with these constructor arguments), then recorded in the receiver's children list
+    child = ctx.instantiate(o.cls, [], dict(key=key, chain_code=cc, index=index, depth=ctx.getattr(selfref, "depth") + 1,
+                                            testnet=ctx.getattr(selfref, "testnet"), parent=selfref))
+    chl = ctx.getattr(selfref, "children")
+    lst = ctx.deref(chl)
     lst.items.append(child)
-    ctx.writes.append((o.fields["children"].oid, "append"))
+    ctx.writes.append((chl.oid, "append"))
     return child
 
 
@@ -131,7 +133,7 @@ def s_prv_ckd(ctx, args, kw):
     selfref = args[0]
     index = simplify_native(args[1] if len(args) > 1 else kw["index"])
     o = ctx.deref(selfref)
-    key = as_rope(simplify_native(o.fields["key"]))
+    key = as_rope(simplify_native(ctx.getattr(selfref, "key")))
     if len(key) == 33 and ctx.branch(L.eq(key[0], 0)):
         key = key.slice(1, 33)
     if len(key) != 32:
@@ -141,7 +143,7 @@ def s_prv_ckd(ctx, args, kw):
         raise PyRaise(ecdsa.keys.MalformedPointError)
     if not ctx.branch(L.land(index >= 0, index < 2 ** 32)):
         raise PyRaise(OverflowError)
-    IL, IR, ki = spec_prv_ckd_terms(k, o.fields["chain_code"], index)
+    IL, IR, ki = spec_prv_ckd_terms(k, ctx.getattr(selfref, "chain_code"), index)
     if ctx.branch(L.lor(IL >= N, ki == 0)):
         raise PyRaise(InvalidKeyError)
     return _new_child(ctx, selfref, o, L.seg(ki, 32), IR, index)
@@ -159,11 +161,11 @@ def s_pub_ckd(ctx, args, kw):
         raise PyRaise(RuntimeError)
     if ctx.branch(index < 0):
         raise PyRaise(OverflowError)
-    key = as_rope(simplify_native(o.fields["key"]))
+    key = as_rope(simplify_native(ctx.getattr(selfref, "key")))
     ok, pt = U.sec_parse(key)
     if not ctx.branch(ok):
         raise PyRaise(ecdsa.keys.MalformedPointError)
-    IL, IR, Ki = spec_pub_ckd_terms(key, pt, o.fields["chain_code"], index)
+    IL, IR, Ki = spec_pub_ckd_terms(key, pt, ctx.getattr(selfref, "chain_code"), index)
     if ctx.branch(L.lor(IL >= N, IL == 0, Ki.sym_eq(U.inf()))):
         raise PyRaise(InvalidKeyError)
     return _new_child(ctx, selfref, o, U.sec(Ki, True), IR, index)
